@@ -17,7 +17,7 @@ def setup(ctx, rng, res, n_pool=2):
     sp = [(r, o) for r, o in tree.spendable(tree.cs.current_chain_hash) if o.value > 10]
     if sp:
         r, o = sp[0]
-        tree.extend(txs=[chain.make_tx(keys, tree.utxo(tree.cs.current_chain_hash), [r], [(o.value - 5, 0), (5, b"\x05" * 64)])])
+        tree.extend(txs=[chain.make_tx(keys, tree.utxo(tree.cs.current_chain_hash), [r], [(o.value - 10, 0), (5, chain.GARBAGE_KEYS[0]), (5, chain.GARBAGE_KEYS[1])])])
     rn = node.RealNode(tree.cs, tree.blocks)
     rn.add_peer(active=True)
     rn.add_peer(active=True, outgoing=True)
@@ -43,6 +43,54 @@ def setup(ctx, rng, res, n_pool=2):
     return keys, tree, rn, ops, impl
 
 
+def one_off_fault(res, rng, tree, rn, accepted_ids, si):
+    """'an error while applying it': a valid block whose validation raises once (injected), then the same block again
+    without the fault, then a child of it; monitors only (the operations are not sent to the model)"""
+    head = rn.cm.coinstate.current_chain_hash
+    if head not in tree.own or rn.cm.coinstate is not rn.cm.last_known_valid_coinstate:
+        return
+    b1 = tree.extend(head)
+    b2 = tree.extend(b1.hash())
+    node.CLOCK[0] = b2.timestamp + 5
+    real = consensus.validate_block_in_coinstate
+    fired = []
+
+    def faulty(block, coinstate):
+        if not fired:
+            fired.append(1)
+            raise RuntimeError("injected one-off fault while validating")
+        return real(block, coinstate)
+    import skepticoin.networking.remote_peer as rp_
+    saved = getattr(rp_, "validate_block_in_coinstate", None)
+    consensus.validate_block_in_coinstate = faulty
+    if saved is not None:
+        rp_.validate_block_in_coinstate = faulty
+    try:
+        before = rn.digest()
+        rn.deliver_block(0, b1, 0)
+        if fired and rn.digest() != before:
+            res.violations.append({"kind": "a delivery that failed with an error while it was being applied left a trace",
+                                   "scenario": si, "block": b1.serialize().hex()})
+    finally:
+        consensus.validate_block_in_coinstate = real
+        if saved is not None:
+            rp_.validate_block_in_coinstate = saved
+    if not fired:
+        res.count("one_off_fault:not-reached")
+        return
+    res.count("one_off_fault:run")
+    for blk, what in ((b1, "the same block delivered again after the one-off error"), (b2, "its child")):
+        rn.deliver_block(0, blk, 0)
+        info = {"scenario": si, "block": blk.serialize().hex(), "delivery": what}
+        if blk.hash() not in rn.cm.coinstate.block_by_hash:
+            res.violations.append({**info, "kind": "a valid block was not accepted after an earlier one-off error (%s)" % what})
+        elif blk.hash() not in rn.disk_ids() or rn.store.write_buffer:
+            res.violations.append({**info, "kind": "an accepted block was not written to the block store (%s)" % what})
+        else:
+            accepted_ids.append(blk.hash())
+        res.case(("fault", si, blk.hash()), nontrivial=True)
+
+
 def run(ctx):
     res = kit.Result()
     rng = ctx.rng
@@ -61,7 +109,18 @@ def run(ctx):
             choice = rng.random()
             kind = None
             blk = None
-            if choice < 0.30:
+            known = set(rn.cm.coinstate.block_by_hash)          # what the node holds now (a roll-back may have dropped blocks)
+            forgotten = [b for b in tree.blocks if b.hash() not in known and b.previous_block_hash in known]
+            irt = 0
+            if choice < 0.08 and tree.cs.current_chain_hash in known:
+                # a valid block that arrives as the answer to the node's own request: adopted without full validation
+                blk = tree.extend(tree.cs.current_chain_hash)
+                kind, irt = "reply_valid", 41
+            elif choice < 0.16 and forgotten:
+                # a block the node once held and lost in a roll-back is delivered again
+                blk = forgotten[0]
+                kind = "redelivered_after_rollback"
+            elif choice < 0.30:
                 # a new valid block on the head or on a fork
                 parent = tree.cs.current_chain_hash if rng.random() < 0.6 else rng.choice(tree.blocks[-7:]).hash()
                 if parent not in known:
@@ -91,7 +150,7 @@ def run(ctx):
                 ph = rng.choice([b for b in tree.blocks[-6:] if b.hash() in known] or [tree.blocks[0]]).hash()
                 if not forced_curve and di >= 3:
                     with_garbage = [b for b in tree.blocks if b.hash() in known and any(
-                        o.public_key.public_key == b"\x05" * 64 for o in tree.utxo(b.hash()).values())]
+                        o.public_key.public_key in chain.GARBAGE_KEYS for o in tree.utxo(b.hash()).values())]
                     if with_garbage:
                         klass, forced_curve, ph = "bad_curve_point", True, with_garbage[-1].hash()
                 try:
@@ -107,18 +166,25 @@ def run(ctx):
                 now = blk.timestamp - 31
             node.CLOCK[0] = now
             prior = rn.cm.coinstate
+            # blocks adopted without validation (bulk download) are dropped again by the roll-back that follows any
+            # rejected delivery: while some are pending, "no trace" cannot be read off the digest
+            pending_unvalidated = rn.cm.coinstate is not rn.cm.last_known_valid_coinstate
             before = rn.digest()
             frames_before = [list(rn.outbox_kinds(p)) for p in rn.peers]
-            r = rn.deliver_block(0, blk, 0)
+            r = rn.deliver_block(0, blk, irt)
             after = rn.digest()
             ops.extend(keys.oracle_lines(sig_mark))
             impl.extend(["ok"] * (len(keys.oracle) - sig_mark))
             sig_mark = len(keys.oracle)
-            ops.append("node block 0 0 %s %d" % (hx(blk.serialize()), now))
+            ops.append("node block 0 %d %s %d" % (irt, hx(blk.serialize()), now))
             impl.append(r)
             ops.append("node digest")
             impl.append(after)
             res.case(blk.serialize() + bytes([di]), nontrivial=True)
+            if irt != 0:
+                # bulk-download path: compared with the model only (C09 speaks about deliveries outside bulk download)
+                res.count("delivery:" + kind)
+                continue
             res.count("delivery:" + kind.split(":")[0])
             if kind.startswith("broken:"):
                 res.count("broken_class:" + kind.split(":")[1])
@@ -146,15 +212,20 @@ def run(ctx):
                     if newf != want:
                         res.violations.append({**info, "kind": "relay: peer %d got %s, expected %s" % (pi, newf, want)})
             else:
-                if fully_valid and blk.hash() not in prior.block_by_hash and kind in ("valid", "held_back"):
+                if fully_valid and blk.hash() not in prior.block_by_hash and kind in ("valid", "held_back", "redelivered_after_rollback"):
                     res.count("valid-not-entered")
-                if after != before:
+                if after != before and pending_unvalidated:
+                    res.count("rollback-dropped-unvalidated-blocks")
+                elif after != before:
                     res.violations.append({**info, "kind": "a delivery that did not enter the chain state left a trace",
                                            "before": before[-300:], "after": after[-300:]})
             if blk.hash() in prior.block_by_hash and after != before:
                 res.violations.append({**info, "kind": "a repeated delivery had an effect"})
             if len(res.samples) < 4:
                 res.sample({"delivery": kind, "result": r, "entered": entered})
+        ops.append("node digest")
+        impl.append(rn.digest())
+        one_off_fault(res, rng, tree, rn, accepted_ids, si)      # monitors only: not mirrored in the model
         ok = rn.store_ok()
         if ok is not True:
             res.violations.append({"kind": "the block store is impaired after the sequence", "error": ok, "scenario": si})
@@ -162,8 +233,6 @@ def run(ctx):
         for i in accepted_ids:
             if i not in disk:
                 res.violations.append({"kind": "an accepted block is missing from the store at the end", "id": i.hex()})
-        ops.append("node digest")
-        impl.append(rn.digest())
         rn.close()
         model = ctx.driver.ask(ops)
         kit.compare(res, ops, impl, model)
